@@ -117,6 +117,7 @@ func main() {
 	genPools(c)
 	genVersionFacts(c)
 	genFacts(c, sch)
+	genScanBlocks(c)
 	if sch != nil {
 		genResolver(c, sch)
 		genFormatter(c, sch)
